@@ -33,17 +33,23 @@ Next == \/ stage = 0 /\ c' \in Contents /\ d' = d /\ stage' = 1
         \/ stage = 1 /\ d' \in (IF Foreign = "all" THEN Contents ELSE Near(c)) /\ c' = c /\ stage' = 2
 Spec == Init /\ [][Next]_vars
 
-Tc == Build(Pairs(c))
-Td == Build(Pairs(d))
+\* (LET-bound values are computed once per state by TLC)
+Complete == stage = 2 =>
+    LET tc == Build(Pairs(c)) IN
+    \A k \in KeySet : c[k] # Nil => Verify(tc, k, ProveSet(tc, k)) = c[k]
 
-Complete == stage = 2 => \A k \in KeySet : c[k] # Nil => Verify(Tc, k, ProveSet(Tc, k)) = c[k]
-
-Sound == stage = 2 => \A k \in KeySet, k2 \in KeySet :
-            \A S \in SUBSET (ProveSet(Tc, k) \cup ProveSet(Td, k2)) :
-                SoundOutcome(Pairs(c), k, VWalk(Tc, k, S, BugNoHash))
+Sound == stage = 2 =>
+    LET tc == Build(Pairs(c))
+        td == Build(Pairs(d))
+        pc == Pairs(c)
+    IN  \A k \in KeySet, k2 \in KeySet :
+            LET u == ProveSet(tc, k) \cup ProveSet(td, k2) IN
+            \A S \in SUBSET u : SoundOutcome(pc, k, VWalk(tc, k, S, BugNoHash))
 
 \* dropping any node of a proof makes it fail (the proof is minimal): not demanded by the property, a fact about
-\* the design that the tampering family "drop a node" relies on to be non-trivial
-Minimal == stage = 2 => \A k \in KeySet : c[k] # Nil =>
-              \A n \in ProveSet(Tc, k) : Verify(Tc, k, ProveSet(Tc, k) \ {n}) = Nil
+\* the design that makes the tampering family "drop a node" non-trivial
+Minimal == stage = 2 =>
+    LET tc == Build(Pairs(c)) IN
+    \A k \in KeySet : c[k] # Nil =>
+        LET ps == ProveSet(tc, k) IN \A n \in ps : Verify(tc, k, ps \ {n}) = Nil
 =============================================================================
